@@ -351,6 +351,10 @@ fn attr(name_idx: u16, body: &[u8]) -> Vec<u8> {
     v
 }
 
+pub(crate) fn special_bytes(name: &str, depth: u32) -> Vec<u8> {
+    special(name, depth).bytes
+}
+
 fn special(name: &str, depth: u32) -> SeedInput {
     match name {
         "self-dynamic" | "two-cycle-dynamic" => {
